@@ -65,6 +65,11 @@ def replay_build(profile):
 def _limits(mem_gb):
     def f():
         os.setsid()
+        # CBMC recurses deeply over the compressor's large structs (SIGSEGV with the default 8 MB stack)
+        try:
+            resource.setrlimit(resource.RLIMIT_STACK, (resource.RLIM_INFINITY, resource.RLIM_INFINITY))
+        except (ValueError, OSError):
+            pass
         if mem_gb:
             resource.setrlimit(resource.RLIMIT_AS, (int(mem_gb * GB), int(mem_gb * GB)))
     return f
@@ -292,6 +297,35 @@ def concrete_values(h):
     return vals, test_src, out
 
 
+def trace_values(h, names):
+    """Fallback when concrete playback emits no test (e.g. overflow checks): read the harness'
+    named locals from CBMC's counterexample trace."""
+    logpath = os.path.join(LOGS, h["name"].replace("::", "__") + ".trace.log")
+    cmd = kani_cmd([h])
+    i = cmd.index("--output-format")
+    cmd[i + 1] = "old"
+    if "--cbmc-args" in cmd:
+        cmd += ["--trace"]
+    else:
+        cmd += ["--cbmc-args", "--trace"]
+    rc, timed_out, wall, out = run_proc(cmd, KANI_DIR, h.get("timeout", 300) * 3 + 300, max(32, 2 * h.get("mem_gb", 12)), logpath)
+    secs = out.split("\nTrace for ")[1:]
+    for sec in secs:
+        head = sec.split("\n", 1)[0]
+        if ".cover." in head or "unwind" in head:
+            continue
+        env = {}
+        for n in names:
+            m = re.search(r"^\s*%s=(-?\d+) " % re.escape(n), sec, re.M)
+            if m:
+                env[n] = int(m.group(1))
+        if env:
+            for n in names:
+                env.setdefault(n, 0)   # sliced away by CBMC: irrelevant to the failing path
+            return env, head
+    return None, None
+
+
 def le(bytes_):
     v = 0
     for i, b in enumerate(bytes_):
@@ -337,9 +371,19 @@ def native_cmd_replay(pid, h, vals):
     names = spec["vals"]
     env = {"pid": pid}
     if len(vals) < len(names):
-        return {"dev": {"reproduced": False, "built": False, "tail": "no concrete values extracted"}}, {}
-    for i, n in enumerate(names):
-        env[n] = le(vals[i]["bytes"])
+        tenv, head = trace_values(h, names)
+        if tenv is None:
+            return {"dev": {"reproduced": False, "built": False, "tail": "no concrete values extracted"}}, {}
+        env.update(tenv)
+        env["_from_trace"] = head
+    else:
+        for i, n in enumerate(names):
+            v = le(vals[i]["bytes"])
+            if spec.get("signed"):
+                bits = 8 * len(vals[i]["bytes"])
+                if v >= 1 << (bits - 1):
+                    v -= 1 << bits
+            env[n] = v
     if "map" in spec:
         env = spec["map"](env)
     args = [a.format(**env) for a in spec["cmd"]]
@@ -390,6 +434,7 @@ def triage_violation(pid, h, r):
         except Exception as e:  # signature function must not hide a violation
             sig = h["name"] + ":sigerr"
     rep["signature"] = sig
+    rep["replay_env"] = {k: v for k, v in sig_env.items() if not callable(v)}
     path = os.path.join(REPLAYS, "%s__%s.json" % (pid, h["name"].replace("::", "__")))
     with open(path, "w") as f:
         json.dump(rep, f, indent=1)
